@@ -305,8 +305,10 @@ class AbstractPWA(Alignment, Transform, Invertible):
                     points_outside_source_domain.append(e.points_outside_source_domain)
                 else:
                     # No exception was thrown, so all points were inside
+                    # one flag per point of *this* batch (the last batch may
+                    # be shorter than batch_size)
                     points_outside_source_domain.append(
-                        np.zeros(batch_size, dtype=bool)
+                        np.zeros(x[lo_ind:hi_ind].shape[0], dtype=bool)
                     )
 
             if exception_thrown:
